@@ -32,6 +32,9 @@ func RunFree(s Sched, variant string, still time.Duration) Trace {
 		defer c.mu.Unlock()
 		d := append([]Ev{}, c.done...)
 		c.done = c.done[:0]
+		if len(d) > 20000 {
+			d = d[:20000] // a stage that never stops producing: the windows are marked busy, a prefix of what happened is judged
+		}
 		return d
 	}
 	nev := func() int { c.mu.Lock(); defer c.mu.Unlock(); return len(c.done) }
@@ -47,9 +50,14 @@ func RunFree(s Sched, variant string, still time.Duration) Trace {
 		return n
 	}
 	// waits until every output is closed (true) or nothing has happened for `quiet` (false)
+	restless := false // things kept happening until the deadline: the last window is not known to be at rest either
 	rest := func(quiet time.Duration, base int) bool {
-		last, at := nev(), time.Now()
+		last, at, t0 := nev(), time.Now(), time.Now()
 		for {
+			if time.Since(t0) > 4*quiet+time.Minute || nev() > 2000000 {
+				restless = true
+				return false
+			}
 			time.Sleep(20 * time.Millisecond)
 			if base+closedOuts() >= len(c.outName) {
 				time.Sleep(50 * time.Millisecond)
@@ -131,9 +139,9 @@ func RunFree(s Sched, variant string, still time.Duration) Trace {
 		ev := take()
 		q := c.snapshot()
 		done, pend := subs(ev)
-		tr.Wins = append(tr.Wins, Window{Cmd: Cmd{C: "burst", Sub: done}, Done: ev, Q: q, Busy: len(pend) > 0})
+		tr.Wins = append(tr.Wins, Window{Cmd: Cmd{C: "burst", Sub: done}, Done: ev, Q: q, Busy: len(pend) > 0 || restless})
 		if len(pend) > 0 {
-			tr.Wins = append(tr.Wins, Window{Cmd: Cmd{C: "burst", Sub: pend}, Done: []Ev{}, Q: q})
+			tr.Wins = append(tr.Wins, Window{Cmd: Cmd{C: "burst", Sub: pend}, Done: []Ev{}, Q: q, Busy: restless})
 		}
 	} else {
 		// part of the input (or, for a generator, a few periods), then the cancel
@@ -174,7 +182,7 @@ func RunFree(s Sched, variant string, still time.Duration) Trace {
 			}
 		}
 		rest(still, nclosed)
-		tr.Wins = append(tr.Wins, Window{Cmd: Cmd{C: "burst", Sub: cs}, Done: take(), Q: c.snapshot()})
+		tr.Wins = append(tr.Wins, Window{Cmd: Cmd{C: "burst", Sub: cs}, Done: take(), Q: c.snapshot(), Busy: restless})
 	}
 	return tr
 }
